@@ -1,4 +1,5 @@
 """C09 -- the 2D cross-section interface equals the 3D interface along the section (spec/CrossSection.tla)."""
+import json
 from lib import build, tlc, replay, report
 
 
@@ -7,7 +8,26 @@ def run(tier):
     exe = build.build("rel", ("replay",))["replay"]
     r = tlc.run("CrossSection.tla", "CrossSection.cfg", workers=12, timeout=1200, heap="12g")
     c.add_tlc(r, "sections (origin x Pythagorean direction x coordinate system); exact mapping, probes off boundaries")
-    res = replay.replay(exe, r.behaviours, shards=16, timeout_s=120)
+    # every harness process gets Cartesian and spherical sections, alternately starting with either kind
+    # (state shared between worlds of different coordinate systems must not leak into the mapping)
+    cart = [b for b in r.behaviours if '"spherical"' not in b[:400] and '"refusal"' not in b[:200]]
+    sph = [b for b in r.behaviours if '"spherical"' in b[:400]]
+    other = [b for b in r.behaviours if b not in cart and b not in sph]
+    ncol = 6
+    cols = [[] for _ in range(ncol)]
+    for k in range(ncol):
+        a, b = (cart[k::ncol], sph[k::ncol]) if k % 2 == 0 else (sph[k::ncol], cart[k::ncol])
+        for i in range(max(len(a), len(b))):
+            if i < len(a): cols[k].append(a[i])
+            if i < len(b): cols[k].append(b[i])
+    cols[0] += other
+    depth = max(len(x) for x in cols)
+    ordered = []
+    filler = json.dumps({"id": "filler", "labels": ["filler"], "steps": []})
+    for i in range(depth):
+        for k in range(ncol):
+            ordered.append(cols[k][i] if i < len(cols[k]) else filler)
+    res = replay.replay(exe, ordered, shards=ncol, timeout_s=120)
     c.add_replay(res, "2D query vs 3D query at the specified mapped point")
     c.sample(r.behaviours[0][:2500] + "...")
     c.coverage["exhaustive"] = True
